@@ -89,6 +89,22 @@ pub fn drive(args: &[String]) -> i32 {
             out.push(event_w(dist, vec![w0, umin], rnd.next(), "wedge U=0"));      // f[i+1] < pdf(x) is false for x >= x[i+1]: reject
             out.push(event_w(dist, vec![w0, umax], rnd.next(), "wedge U=max"));    // ~f[i] < pdf(x) for x just above x[i+1]: accept
         }
+        // after a wedge rejection the next iteration draws a NEW word and takes its layer from it: script a rejected
+        // wedge proposal in layer i, then a word selecting layer l2 with a tiny |u| (rectangle); which table entry was
+        // used is identified from the result (u * X[j] == out, one IEEE product per candidate j)
+        for i in [1u64, 7, 100, 200, 255] { for l2 in [1u64, 2, 10, 128, 200, 254] {
+            let edge = xt[i as usize + 1] / xt[i as usize];
+            let m = if dist == "norm" { (((edge + 1.0) / 2.0) * 4503599627370496.0) as u64 + 4 } else { (edge * 4503599627370496.0) as u64 + 4 };
+            let w0 = (m.min((1 << 52) - 1) << 12) | i;
+            let m2: u64 = if dist == "norm" { (1 << 51) + (1 << 40) } else { 1 << 40 };
+            let w2 = (m2 << 12) | l2;
+            let u2: f64 = if dist == "norm" { f64::from_bits((m2) | (1024u64 << 52)) - 3.0 } else { f64::from_bits(m2 | (1023u64 << 52)) - (1.0 - f64::EPSILON / 2.0) };
+            let mut rng = ScriptRng::new(vec![w0, umin, w2], rnd.next());
+            let r = if dist == "norm" { guarded(|| StandardNormal.sample(&mut rng)) } else { guarded(|| Exp1.sample(&mut rng)) };
+            let (res, jf, show): (String, i64, f64) = match r { Ok(x) => { let x: f64 = x; ("Ok".into(), (0..256).find(|&j| (u2 * xt[j]).to_bits() == x.to_bits()).map(|j| j as i64).unwrap_or(-1), x) } Err(p) => (format!("Panic: {}", p), -1, 0.0) };
+            out.push(json!({"dist": dist, "res": res, "i": i, "uneg": false, "words": rng.words(), "single": false, "absout": [0, 0, 0], "neg": false, "finite": true,
+                            "f32ok": true, "tag": "relayer", "l2": l2, "jfound": jf, "show": format!("{:e}", show)}).to_string());
+        } }
         for neg in [false, true] {
             // base strip beyond the rectangle: |u| = max
             let m: u64 = if dist == "norm" { if neg { 0 } else { (1 << 52) - 1 } } else { (1 << 52) - 1 };
